@@ -427,6 +427,7 @@ def plan(tier, seed):
         specs.append({"family": "text", "first": a, "L": LT, "seed": seed, "n": 1})
     specs += shards("docs", 600 if q else 30000, 150 if q else 3000, seed)
     specs.append({"family": "corpus", "seed": seed, "n": 1})
+    specs.append({"family": "w0", "seed": seed, "n": 1})
     return specs
 
 
@@ -518,6 +519,9 @@ def run_shard(spec, M):
                 if acc and real != want:
                     M.violation("C02.nesting", {"what": "builder events differ from the grammar's derivation of the document",
                                                 "real": real[:12], "grammar": want[:12]}, case)
+    elif fam == "w0":
+        from .base import run_repo_tests_under_monitors
+        run_repo_tests_under_monitors(M, {"G4"})
     elif fam == "corpus":
         for g_ in corpus.good() + corpus.bad():
             o = observe.parse_observed(g_["text"])
